@@ -35,6 +35,7 @@ TRUSTED_BASE = [
     "harness/extract_srcenum.py (enum.py: member loop of EnumType.__new__, lookups, try_value, from_string, mutation refusals, copy / pickle hooks -> Gen/SrcEnum.lean) and lean/BpProofs/PyPreludeEnum.lean (dicts as association lists, member allocation with a fresh object identity; TypeError for unhashable arguments outside the model)",
     "harness/extract_srctyping.py (plugin/typing_compiler.py: the seven methods of the three compilers -> Gen/SrcTyping.lean) and lean/BpProofs/PyPreludeTyping.lean",
     "harness/extract_srccasing.py (casing.py: the regex constants and the two re.sub patterns PARSED into a regex AST, the substitute_word closures, camel_case, sanitize_name, safe_snake_case -> Gen/SrcCasing.lean), lean/BpProofs/PyRegex.lean (semantics of CPython's re matching and re.sub incl. the empty-match rule; validated against the real re by harness/tests/check_regex.py) and lean/BpProofs/PyPreludeCasing.lean",
+    "harness/extract_srcnaming.py (compile/naming.py: the four pythonize_* functions -> Gen/SrcNaming.lean) and lean/BpProofs/PyPreludeNaming.lean (str.find / strip / upper on ASCII)",
     "that each Lean statement in lean/BpProofs/Props says what the English property says",
 ]
 
